@@ -46,6 +46,13 @@ def ctext(node, mapping):
     return nospace(t)
 
 
+def parents(node, stop):
+    p = getattr(node, "_parent", None)
+    while p is not None and p is not stop:
+        yield p
+        p = getattr(p, "_parent", None)
+
+
 def class_attrs(idx, ci):
     """attributes available on instances of ci: assigned on self anywhere in the class (and bases), methods, class-level names"""
     out = set()
@@ -181,6 +188,20 @@ def run(idx, rep, tier):
             ok = unpack and shp == norm_idx(buf_shape.format(x=x)) and upd_idx == scatter and parent_prod in src and gather in src
             rep.decide(ok, "slice-buffers", f"Sliced.{m.name}", f"buffer {shp}, scatter by [{upd_idx}], product `{parent_prod if parent_prod in src else '?'}`, gather `{gather if gather in src else '?'}`" +
                        ("" if ok else f"; required buffer {buf_shape.format(x=x)}, scatter [{scatter}], {parent_prod}, {gather}"), detail="" if ok else "buffers", locs=[idx.loc(m.module, m.node)])
+            # every exit must go through the scatter / gather pair: a return that multiplies the parent by the raw operand
+            # ignores the column (row) selection; equal sizes do not make the selection the identity (A[:, ::-1], A[:, [1, 0]])
+            for r in df.returns(m.node):
+                if r.value is None or ctext(r.value, roles) == gather:
+                    continue
+                guards = [p_ for p_ in parents(r, m.node) if isinstance(p_, ast.If)]
+                gtxt = " and ".join(nospace(g.test) for g in guards)
+                only_sizes = bool(guards) and all(isinstance(g.test, ast.Compare) and all(".shape" in nospace(x) or "len(" in nospace(x) for x in [g.test.left] + g.test.comparators) for g in guards)
+                uses_raw = x in df.names_in(r.value) and "self.A" in nospace(r.value)
+                if uses_raw and (only_sizes or not guards):
+                    rep.refuted("slice-buffers", f"Sliced.{m.name}:shortcut", f"`return {nospace(r.value)}`" + (f" under `{gtxt}`" if gtxt else "") + " multiplies the parent by the un-scattered operand: "
+                                "the other index of the slice is ignored, and equal sizes do not make it the identity selection (reversed or permuted indices)", detail="bypass", locs=[idx.loc(m.module, r)])
+                else:
+                    rep.undecided("slice-buffers", f"Sliced.{m.name}:shortcut", f"`return {nospace(r.value)}`" + (f" under `{gtxt}`" if gtxt else "") + " does not go through the scatter/gather pair", locs=[idx.loc(m.module, r)])
             # dtype of the scatter buffer must cover the operand
             if z is not None and upd is not None:
                 dt = DType(idx, x)
